@@ -359,3 +359,58 @@ def rule_recursive_read(cx, tier):
     r.analysed = {"shared_guard_x_handle_method_pairs": n_pairs}
     r.floor("live shared guard x handle method call pairs", n_pairs, 5)
     return r
+
+
+# ---------------------------------------------------------------------------------------------
+# R-LEN-THEN-INDEX (C19): an index is used under the lock acquisition it was validated under
+
+def rule_len_then_index(cx, tier):
+    r = RuleResult("R-LEN-THEN-INDEX",
+                   "a panicking `[]` on the data of a shared list (`l.data()[i]`, `l.data_mut()[i]`) does not use an index "
+                   "that was computed from `l.len()` of the same handle: `len()` takes and releases its own lock, so under "
+                   "the multi-threaded build another thread can shrink the list between the validation and the indexing "
+                   "(index out of bounds panic); the length has to be read through the guard that is then indexed")
+    from .narrow import Sym
+    from .vm import _backward_slice
+    LIST = "koto_runtime::KList::"
+    n = 0
+    for fn in cx.F.fns.values():
+        if fn.crate.uname != "koto_runtime" or fn.derived:
+            continue
+        calls = fn.calls()
+        idx_calls = [c for c in calls if (c.short or "").endswith((" as Index>::index", " as IndexMut>::index_mut",
+                                                                     "Index::index", "IndexMut::index_mut"))
+                     and len(c.args) >= 2]
+        if not idx_calls:
+            continue
+        du = cx.du(fn)
+        sym = Sym(cx, fn)
+
+        def handle(c):
+            p = op_place(c.args[0]) if c.args else None
+            return sym.canon(p[0], place_fields(p)) if p is not None else None
+        for c in idx_calls:
+            rl = op_base(c.args[0])
+            il = op_base(c.args[1])
+            if rl is None or il is None:
+                continue
+            _, _, rcalls = _backward_slice(fn, du, rl, stop=("data", "data_mut"))
+            owners = {handle(x) for x in rcalls if x.short in (LIST + "data", LIST + "data_mut")}
+            owners.discard(None)
+            if not owners:
+                continue
+            n += 1
+            r.instances += 1
+            _, _, icalls = _backward_slice(fn, du, il)
+            lens = [x for x in icalls if x.short == LIST + "len" and handle(x) in owners]
+            r.sample({"fn": cx.label(fn), "line": c.line, "list": sorted(owners), "index_from_separate_len": bool(lens)}, limit=8)
+            if lens:
+                r.nontrivial += 1
+                h = sorted(owners)[0]
+                r.add(Finding("R-LEN-THEN-INDEX", cx.label(fn), f"{h}:len-then-index",
+                              f"`{h}.data()[..]` is indexed with a value validated against `{h}.len()` (line {lens[0].line}), "
+                              f"a separate lock acquisition: with the arc feature a concurrent pop / clear between the two "
+                              f"makes the index panic", fn.file, c.line))
+    r.floor("panicking index sites on shared list data", n, 3)
+    r.analysed = {"index_sites_on_list_data": n}
+    return r
